@@ -20,7 +20,7 @@ ANALYSES = ["solve", "rail_rep", "params", "limits", "phases", "tree", "save", "
 CACHE_OK = {"_parents", "_childs", "_topo_nodes", "_phase_lkup", "attrs[hidx]"}
 MODULE_MUTABLES = {"components": ["LIMITS_DEFAULT", "STATE_DEFAULT", "STATE_OFF"], "diagram": ["_DEF_GRAPH_CONF", "_DEF_CLUSTER_CONF", "_DEF_NODE_CONF", "_DEF_EDGE_CONF", "_DEF_CONF", "_DEF_GRADIENT"],
                    "system": ["LIMITS_DEFAULT", "STATE_DEFAULT"]}
-FRESH_CALLS = {"copy.deepcopy", "deepcopy", "dict", "list", "copy.copy"}
+FRESH_CALLS = {"copy.deepcopy", "deepcopy", "dict", "list", "copy.copy", "dict.fromkeys"}
 
 
 def run(model, rep, tier):
@@ -300,6 +300,12 @@ def r2_restore(model, rep):
                        and "._params[" in ast.unparse(a.targets[0]) and not isinstance(a.targets[0].slice, ast.Constant)]
             if loopish:
                 raise AnalysisError("batt_life: the finally clause restores parameters through a computed key (%s): not readable" % ast.unparse(loopish[0])[:60])
+            # a `with` block whose context manager is not one of the known ones (progress bar, file) may be what restores the battery on exit
+            # (an ExitStack callback, a guard object): what it does on exit is not read here
+            others = sorted({ast.unparse(it.context_expr.func if isinstance(it.context_expr, ast.Call) else it.context_expr) for w in ast.walk(fn) if isinstance(w, ast.With)
+                             for it in w.items} - {"tqdm", "open", "tqdm.tqdm"})
+            if others:
+                raise AnalysisError("batt_life: no `finally` restores %s, but the loop runs inside `with %s`: whether that context manager restores the battery is not readable" % (loc, others[0][:50]))
             ok = False
             rep.violation("R2", "system.System.batt_life", where, "%s is overwritten during the depletion loop but is not restored from its saved original in a `finally` clause: an exception in a callback or the solver leaves the battery modified" % loc, "no finally restore of " + loc)
             continue
